@@ -1,13 +1,22 @@
 package main
 
-import "time"
+import (
+	"os"
+	"time"
+)
 
 func init() { checks["C14"] = checkC14 }
 
 func checkC14(c *Check) {
-	c.Rule = "TLC (RulesGen.tla, alphabet AlphaLimits) enumerates documents under several small limit configurations (container depth, object count, array bytes, identifier length, marker count each set to 1..4) so that every document's usage lies below, at and above each limit; a behaviour ends at the first event the model rejects because a limit is exceeded; each is replayed into rules.NewRules configured with the same numbers. non-trivial = contains a container/array/marker; distinct = (limit configuration, index sequence)"
-	c.Assumptions = []string{"abs/concretiser of harness/abs.go", "TLC", "usage is counted the way the validator counts it (a marker and its value are 2 objects, a record type definition 1, a reference 1); the marker limit is carried by MaxMarkerCount, by MaxLocalReferenceCount or by both (Lim.RefsVia); the model's lim.refs is the smaller of the two", "document size limit (decoders) is checked by the CBE/CTE reader checks, not here"}
+	c.Rule = "TLC (RulesGen.tla, alphabet AlphaLimits) enumerates documents under several small limit configurations (container depth, object count, array bytes, identifier length, marker count each set to 1..4) so that every document's usage lies below, at and above each limit; a behaviour ends at the first event the model rejects because a limit is exceeded; each is replayed into rules.NewRules configured with the same numbers. Document size: TLC (DocSize.tla; invariants Counted, Exact) enumerates every sequence of value kinds (one per read path of the CBE reader) with every limit 0..max; the document is built by the real encoder (its length must equal the model's) and decoded with MaxDocumentSizeBytes = limit through CBE/CTE/universal decoders and unmarshalers from memory and from a reader: refused exactly when the model refuses, else the same result as without a limit. non-trivial = contains a container/array/marker; distinct = (limit configuration, index sequence)"
+	c.Assumptions = []string{"abs/concretiser of harness/abs.go", "TLC", "usage is counted the way the validator counts it (a marker and its value are 2 objects, a record type definition 1, a reference 1); the marker limit is carried by MaxMarkerCount, by MaxLocalReferenceCount or by both (Lim.RefsVia); the model's lim.refs is the smaller of the two", "document size: DocSize.tla value kinds are bound to the CBE encoder's output by comparing sizes"}
 	reasons := []string{"limit"}
+	if os.Getenv("VERIF_C14_ONLY") == "size" {
+		os.Setenv("VERIF_NO_EVIDENCE", "1")
+		checkC14DocSize(c)
+		return
+	}
+	checkC14DocSize(c)
 	runRulesMC(c, "AlphaLimits", map[string]int{"quick": 5, "thorough": 6}[c.Tier], Lim{Depth: 2, Objs: 4, ABytes: 3, IDLen: 2, Refs: 1}, "", "limits")
 	n := 5
 	if c.Tier == "thorough" {
@@ -25,6 +34,9 @@ func checkC14(c *Check) {
 	// markers beyond the first two need longer documents: start inside a list that already holds marked values
 	marked := `<<EvBD, EvVer(0), EvList, EvIdX("OnMarker", "bb", 2, TRUE), EvNull>>`
 	marked2 := `<<EvBD, EvVer(0), EvList, EvIdX("OnMarker", "bb", 2, TRUE), EvNull, EvIdX("OnMarker", "ccc", 3, TRUE), EvList>>`
+	// a marker that resolves an earlier reference counts like any other
+	forward := `<<EvBD, EvVer(0), EvList, EvIdX("OnReferenceLocal", "a", 1, TRUE)>>`
+	runRulesGen(c, genCfg{Alphabet: "AlphaLimits", MaxLen: n - 1, Lim: Lim{Depth: 3, Objs: 9, ABytes: 3, IDLen: 3, Refs: 1, RefsVia: 2}, Reasons: reasons, Prefix: forward, Label: "limits/forward-ref", Timeout: to, Workers: 8})
 	for via := 1; via < 3; via++ {
 		runRulesGen(c, genCfg{Alphabet: "AlphaLimits", MaxLen: n - 1, Lim: Lim{Depth: 3, Objs: 9, ABytes: 3, IDLen: 3, Refs: 2, RefsVia: via}, Reasons: reasons, Prefix: marked, Label: "limits/markers2-via" + string(rune('0'+via)), Timeout: to, Workers: 8})
 	}
